@@ -28,7 +28,8 @@ SHAPES = {
 QUICK_SHAPES = ['line4', 'grid3x2', 'gen3x2x2', 'gen3x0x2', 'gen0x2x0', 'gen2x2x2']
 KINDS = ['callable', 'list', 'ndarray', 'constant', 'lookup_rank', 'lookup_np_rank', 'lookup_3d', 'constant_tuple',
          'constant_list', 'callable_mixed', 'lookup_3d_reused', 'constant_subclass', 'callable_shift',
-         'lookup_3d_tuples', 'lookup_3d_mixed', 'lookup_3d_reassigned', 'callable_mapping', 'lookup_3d_caller_edit']
+         'lookup_3d_tuples', 'lookup_3d_mixed', 'lookup_3d_reassigned', 'callable_mapping', 'lookup_3d_caller_edit',
+         'constant_callable', 'lookup_np_oversize']
 
 
 class Either:
@@ -36,6 +37,10 @@ class Either:
 
     def __init__(self, *alts):
         self.alts = alts
+
+
+class Marker:
+    """A marker class used as a constant cell value (callable, like every class)."""
 
 
 class PosConstant(Envs.ConstantGenerator):
@@ -144,6 +149,9 @@ class Harness:
             return buf, vals, buf
         if kind == 'constant':
             return Envs.ConstantGenerator(7 + 1000 * ki), [7 + 1000 * ki] * len(self.table), None
+        if kind == 'constant_callable':
+            # a constant that happens to be callable (a marker class): every cell holds the constant itself
+            return Envs.ConstantGenerator(Marker), [Marker] * len(self.table), None
         if kind in ('constant_tuple', 'constant_list'):
             # a constant that is itself a sequence with exactly one entry per cell: every cell holds the WHOLE value
             seq = [1000 * ki + i for i in range(len(self.table))]
@@ -153,6 +161,11 @@ class Harness:
         full = [[[f(ki, (x, y, z)) for z in range(ex[2])] for y in range(ex[1])] for x in range(ex[0])]
         if kind == 'lookup_3d':
             return Envs.LookupGenerator(full), vals, None
+        if kind == 'lookup_np_oversize':
+            # one raster shared by several worlds: a numpy table LARGER than this world along x and y (and z): each cell
+            # takes the entry at its own coordinates
+            big = np.array([[[f(ki, (x, y, z)) for z in range(ex[2] + 1)] for y in range(ex[1] + 1)] for x in range(ex[0] + 2)])
+            return Envs.LookupGenerator(big), vals, None
         if kind == 'lookup_3d_tuples':      # the same table as nested tuples (read-only data, a zip(*rows) transpose, ...)
             return Envs.LookupGenerator(tuple(tuple(tuple(zs) for zs in ys) for ys in full)), vals, None
         if kind == 'lookup_3d_mixed':       # a list of tuples of lists
